@@ -196,13 +196,20 @@ func (msg Message) Generate(w io.Writer, settings GenerateSettings) {
 }
 
 func writeMessageFieldUnmarshaller(name string, typ FieldType, w *iohelp.ErrorWriter, settings GenerateSettings, depth int) {
+	// name is a pointer expression ("bbp.Field") for the field itself and an
+	// address-of expression ("&(...)") for the elements of nested containers.
+	deref := "(*" + name + ")"
+	if name[0] == '&' {
+		deref = name[1:]
+	}
 	if typ.Array != nil {
 		writeLineWithTabs(w, "%RECV = make([]%TYPE, iohelp.ReadUint32(r))", depth, name, typ.Array.goString(settings))
 		if typ.Array.Simple == typeByte {
 			writeLineWithTabs(w, "r.Read(%RECV)", depth, name)
 		} else {
-			writeLineWithTabs(w, "for i := range %RECV {", depth, name)
-			writeMessageFieldUnmarshaller("("+name+")[i]", *typ.Array, w, settings, depth+1)
+			iName := depthName("i", depth)
+			writeLineWithTabs(w, "for "+iName+" := range %RECV {", depth, name)
+			writeMessageFieldUnmarshaller("&("+deref+"["+iName+"])", *typ.Array, w, settings, depth+1)
 			writeLineWithTabs(w, "}", depth)
 		}
 	} else if typ.Map != nil {
@@ -212,7 +219,7 @@ func writeMessageFieldUnmarshaller(name string, typ FieldType, w *iohelp.ErrorWr
 		writeLineWithTabs(w, "for i := uint32(0); i < "+lnName+"; i++ {", depth, name)
 		ln := getLineWithTabs(settings.typeUnmarshallers[typ.Map.Key], depth+1, "&"+depthName("k", depth))
 		w.SafeWrite([]byte(strings.Replace(ln, "=", ":=", 1)))
-		writeMessageFieldUnmarshaller("("+name+")["+depthName("k", depth)+"]", typ.Map.Value, w, settings, depth+1)
+		writeMessageFieldUnmarshaller("&("+deref+"["+depthName("k", depth)+"])", typ.Map.Value, w, settings, depth+1)
 		writeLineWithTabs(w, "}", depth)
 	} else {
 		simpleTyp := typ.Simple
